@@ -90,12 +90,14 @@ def judge(fails, where, a0, rest, target, out):
         if isinstance(out, RuntimeError) and type(out).__name__ == "RuntimeError":
             return "runtime"
         name = type(out).__name__
-        if name == "ZeroDivisionError" and To == 1:
-            sig = "C15:derivative-factor-ZeroDivision"
-        elif any(x < 0 for _, _, _, _, x in a0):
+        if any(x < 0 for _, _, _, _, x in a0):
             sig = "C15:raises-%s:negative-activity-input" % name
         elif any(x == 0 for _, _, _, _, x in a0) and To == 0:
             sig = "C15:raises-%s:zero-activity-input" % name
+        elif any(x == 0 for _, _, _, _, x in a0):
+            sig = "C15:raises-%s:%s" % (name, feat)          # target/0 again, smallest rest time not 0
+        elif name == "ZeroDivisionError" and To == 1:
+            sig = "C15:derivative-factor-ZeroDivision"      # no zero activity anywhere: df(x) == 0
         else:
             sig = "C15:raises-%s:%s" % (name, feat)
         fails.add(sig, "decay_time(%r) raises %s: %s (only RuntimeError is allowed); rest_times=%r"
